@@ -121,6 +121,8 @@ register(PropertySpec(
              "the flag not_ flips on a leaf is read by every class that has it, and an operand without it is refused"),
         Rule("NEG-IN-PLACE", _lazy("negation", "rule_neg_in_place"), 1,
              "not_(c) leaves c what it was (a leaf is negated on a copy)"),
+        Rule("REENTRANT-FLAG", _lazy("values", "rule_reentrant_flag"), 9,
+             "a condition object placed twice (c and not_-free siblings of it) is evaluated re-entrantly: each evaluation reads the request for false rows from its own argument"),
     ],
     explanation="Negation is a rewrite at construction time, so it is a function on syntax and is decided from the "
                 "source: the inverse-operator table is extracted by abstract evaluation of the setter's CFG (match / if "
@@ -903,6 +905,8 @@ register(PropertySpec(
              "flags that say 'this part is being evaluated' are cleared on every exit, also when the evaluation is abandoned - a stale flag changes which rows the next evaluation yields"),
         Rule("QUERY-FRESH-STATE", _lazy("history", "rule_query_fresh_state"), 2,
              "every evaluation of a quantified query (nested, selected, used as a domain) starts by resetting the duplicate-suppression state below it"),
+        Rule("DEDUP-CONCLUSIONS", _lazy("binding", "rule_dedup_conclusions"), 2,
+             "the duplicate key of an else-if covers what the right side concludes on, also below a selector (rows that differ only there are not duplicates)"),
     ],
     explanation="All clauses are weak but necessary: arguments evaluated under the current binding, one construction "
                 "per combination, no retrieval instead of construction for inferred variables, existing objects passed "
